@@ -1,0 +1,8 @@
+//go:build !verif
+
+// Package verifsched provides named yield points for the verification harness.
+// Without the `verif` build tag every point is an empty function.
+package verifsched
+
+// Point marks a boundary between two atomic steps of the code. No-op in normal builds.
+func Point(_ string, _ string) {}
